@@ -111,6 +111,13 @@ def Val.allLt (x y : Val) : Bool :=
   match Val.lift2 (fun a b => if a < b then 1.0 else 0.0) x y with
   | v => v.all (fun t => t == 1.0)
 
+/-- where the first-order lower bound of a quotient is judged: every element of the divisor has
+    `db < b` (interval excludes 0) or `b < db ≤ 2b` (theorems `C08_first_order_div`, `…_wide`);
+    beyond `2b` the bound is false for the code (`C08_first_order_div_needs_interval`) and at
+    `db = b` the code divides by zero. -/
+def divBoundApplies (re rv : Val) : Bool :=
+  (Val.lift2 (fun e v => if e < v || (v < e && e ≤ 2.0 * v) then 1.0 else 0.0) re rv).all (fun t => t == 1.0)
+
 def ruleExact : Json := Json.mkObj [("rule", jstr "exact")]
 def ruleEq (b : Val) : Json := Json.mkObj [("rule", jstr "eq"), ("bound", jval b)]
 def ruleGe (b : Val) : Json := Json.mkObj [("rule", jstr "ge"), ("bound", jval b)]
@@ -131,10 +138,10 @@ def specRule (op : String) (l r : Mag Val) : Json :=
     if pos l.value && pos r.value then ruleGe (specFirstOrderMul l.value le r.value re) else ruleNonneg
   | "div", some le, none => ruleEq (specUnscaleErr r.value le)
   | "div", none, some re =>
-    if pos l.value && pos r.value && Val.allLt re r.value then
+    if pos l.value && pos r.value && divBoundApplies re r.value then
       ruleGe (specFirstOrderDiv l.value zero r.value re) else ruleNonneg
   | "div", some le, some re =>
-    if pos l.value && pos r.value && Val.allLt re r.value then
+    if pos l.value && pos r.value && divBoundApplies re r.value then
       ruleGe (specFirstOrderDiv l.value le r.value re) else ruleNonneg
   | _, _, _ => ruleNonneg
 
